@@ -10,6 +10,6 @@ Proof. reflexivity. Qed.
 Theorem code_intensity_is_model (T : Type) (O : Ops T) scale bg (s : Sums (T:=T)) :
   code_intensity O scale bg s = intensity O scale bg s.
 Proof.
-  unfold code_intensity, intensity. rewrite code_normalise_is_model.
+  unfold code_intensity, intensity. try rewrite code_normalise_is_model.
   first [ reflexivity | rewrite map_map; reflexivity ].
 Qed.
